@@ -1,0 +1,181 @@
+//go:build verif
+
+// Contracts for the deductive verifier in /verif (govc). This file contains comments only; it is
+// compiled solely under the "verif" build tag and adds no code to the package.
+//
+// Clause syntax (Gobra style, one clause per "//@" line, "//@ |" continues a clause):
+//   func <key>                         function the following clauses belong to
+//   opt arith=wrap|checked conv        arithmetic mode / conversion obligations
+//   requires <expr>                    precondition (assumed on entry, proved at call sites)
+//   ensures[Cxx,...] <expr>            postcondition serving the listed properties
+//   loop <n> invariant[Cxx] <expr>     invariant of the n-th loop (source order)
+//   loop <n> decreases <e1>, <e2>      lexicographic termination measure
+//   track <name> = <callee>            ghost counter of calls to <callee>
+//   atcall[Cxx] <callee>: <expr>       assertion at every call of <callee>; arg(k) = k-th argument
+//   modifies <x.f>, ...                frame
+//   pred / axiom / ghost / lemma       named predicates, global assumptions, ghost state, lemmas
+
+package vanguard
+
+// ------------------------------------------------------------------------------------------------
+// C12 / C04: tables and timeouts (loop-free, complete over the whole input domain)
+
+//@ pred rpc2http(c) = ite(c==0,200, ite(c==1,499, ite(c==2,500, ite(c==3,400, ite(c==4,504,
+//@ |   ite(c==5,404, ite(c==6,409, ite(c==7,403, ite(c==8,429, ite(c==9,400, ite(c==10,409,
+//@ |   ite(c==11,400, ite(c==12,501, ite(c==13,500, ite(c==14,503, ite(c==15,500, ite(c==16,401, 500)))))))))))))))))
+//@ pred http2rpc(s) = ite(s==200,0, ite(s==400,13, ite(s==401,16, ite(s==403,7, ite(s==404,12,
+//@ |   ite(s==429||s==502||s==503||s==504,14, 2))))))
+
+//@ func httpStatusCodeFromRPC
+//@   ensures[C04] result == rpc2http(code)
+
+//@ func httpStatusCodeToRPC
+//@   ensures[C04] result == http2rpc(code)
+
+//@ pred gunit(b) = ite(b=='n',1, ite(b=='u',1000, ite(b=='m',1000000, ite(b=='S',1000000000,
+//@ |   ite(b=='M',60000000000, ite(b=='H',3600000000000, 0))))))
+//@ pred gsyntax(s) = 2 <= len(s) && len(s) <= 9 && gunit(s[len(s)-1]) != 0 && isdigits(s[:len(s)-1])
+//@ pred gvalue(s) = decval(s[:len(s)-1]) * gunit(s[len(s)-1])
+
+//@ func grpcTimeoutUnitLookup
+//@   ensures[C12] result == gunit(unit)
+
+//@ func grpcDecodeTimeout
+//@   opt arith=checked
+//@   ensures[C12] err == nil ==> gsyntax(timeout)
+//@   ensures[C12] err == nil && gsyntax(timeout) ==> r0 == gvalue(timeout) && r0 >= 0
+//@   ensures[C12] gsyntax(timeout) ==> err == nil || errIs(err, errNoTimeout)
+//@   ensures[C12] errIs(err, errNoTimeout) && gsyntax(timeout) ==> gvalue(timeout) > 8*3600000000000
+//@   ensures[C12] gsyntax(timeout) && gvalue(timeout) <= 8*3600000000000 ==> err == nil
+
+//@ func grpcEncodeTimeout
+//@   opt arith=checked
+//@   ensures[C12] timeout <= 0 ==> result == "0n"
+//@   ensures[C12] timeout > 0 ==> gsyntax(result)
+//@   ensures[C12] timeout > 0 ==> gvalue(result) <= timeout && timeout - gvalue(result) < gunit(result[len(result)-1])
+
+//@ axiom errNoTimeout != nil
+
+// ------------------------------------------------------------------------------------------------
+// C02 / C03 / C09: envelopes (complete over all 2^40 envelope prefixes and all envelope values)
+
+//@ pred be32(b) = b[1]*16777216 + b[2]*65536 + b[3]*256 + b[4]
+
+//@ func (grpcServerProtocol).decodeEnvelope
+//@   ensures[C09] (err == nil) == (envBytes[0] == 0 || envBytes[0] == 1)
+//@   ensures[C02,C09] err == nil ==> r0.compressed == (envBytes[0] == 1) && !r0.trailer && r0.length == be32(envBytes)
+//@ func (grpcClientProtocol).decodeEnvelope
+//@   ensures[C09] (err == nil) == (bytes[0] == 0 || bytes[0] == 1)
+//@   ensures[C02,C09] err == nil ==> r0.compressed == (bytes[0] == 1) && !r0.trailer && r0.length == be32(bytes)
+//@ func (grpcWebClientProtocol).decodeEnvelope
+//@   ensures[C09] (err == nil) == (bytes[0] == 0 || bytes[0] == 1)
+//@   ensures[C02,C09] err == nil ==> r0.compressed == (bytes[0] == 1) && !r0.trailer && r0.length == be32(bytes)
+//@ func (grpcWebServerProtocol).decodeEnvelope
+//@   ensures[C09] (err == nil) == (envBytes[0] == 0 || envBytes[0] == 1 || envBytes[0] == 128 || envBytes[0] == 129)
+//@   ensures[C03,C09] err == nil ==> r0.compressed == (envBytes[0] == 1 || envBytes[0] == 129) && r0.trailer == (envBytes[0] >= 128) && r0.length == be32(envBytes)
+//@ func (connectStreamServerProtocol).decodeEnvelope
+//@   ensures[C09] (err == nil) == (envBytes[0] <= 3)
+//@   ensures[C03,C09] err == nil ==> r0.compressed == (envBytes[0] == 1 || envBytes[0] == 3) && r0.trailer == (envBytes[0] >= 2) && r0.length == be32(envBytes)
+//@ func (connectStreamClientProtocol).decodeEnvelope
+//@   ensures[C09] (err == nil) == (envBytes[0] == 0 || envBytes[0] == 1)
+//@   ensures[C02,C09] err == nil ==> r0.compressed == (envBytes[0] == 1) && !r0.trailer && r0.length == be32(envBytes)
+
+//@ func (grpcServerProtocol).encodeEnvelope
+//@   ensures[C02] result[0] == ite(env.compressed, 1, 0) && be32(result) == env.length
+//@ func (grpcClientProtocol).encodeEnvelope
+//@   ensures[C03] result[0] == ite(env.compressed, 1, 0) && be32(result) == env.length
+//@ func (grpcWebServerProtocol).encodeEnvelope
+//@   ensures[C02] result[0] == ite(env.compressed, 1, 0) && be32(result) == env.length
+//@ func (grpcWebClientProtocol).encodeEnvelope
+//@   ensures[C03] result[0] == ite(env.compressed, 1, 0) + ite(env.trailer, 128, 0) && be32(result) == env.length
+//@ func (connectStreamClientProtocol).encodeEnvelope
+//@   ensures[C03] result[0] == ite(env.compressed, 1, 0) + ite(env.trailer, 2, 0) && be32(result) == env.length
+//@ func (connectStreamServerProtocol).encodeEnvelope
+//@   ensures[C02] result[0] == ite(env.compressed, 1, 0) && be32(result) == env.length
+
+// decode(encode(e)) == e for every (encoder, peer decoder) pairing the transcoder can create:
+// request direction  = server-side encoder read back by the backend's decoder of the same protocol;
+// response direction = client-side encoder read back by the client's decoder.
+//@ lemma[C01,C02,C09] rtGRPC(g grpcServerProtocol, e envelope): !e.trailer ==> g.decodeEnvelope(g.encodeEnvelope(e)).r1 == nil && g.decodeEnvelope(g.encodeEnvelope(e)).r0 == e
+//@ lemma[C01,C02,C09] rtGRPCWebReq(g grpcWebServerProtocol, e envelope): !e.trailer ==> g.decodeEnvelope(g.encodeEnvelope(e)).r1 == nil && g.decodeEnvelope(g.encodeEnvelope(e)).r0 == e
+//@ lemma[C01,C03,C09] rtGRPCWebResp(c grpcWebClientProtocol, g grpcWebServerProtocol, e envelope): g.decodeEnvelope(c.encodeEnvelope(e)).r1 == nil && g.decodeEnvelope(c.encodeEnvelope(e)).r0 == e
+//@ lemma[C01,C02,C09] rtConnectReq(s connectStreamServerProtocol, c connectStreamClientProtocol, e envelope): !e.trailer ==> c.decodeEnvelope(s.encodeEnvelope(e)).r1 == nil && c.decodeEnvelope(s.encodeEnvelope(e)).r0 == e
+//@ lemma[C01,C03,C09] rtConnectResp(s connectStreamServerProtocol, c connectStreamClientProtocol, e envelope): s.decodeEnvelope(c.encodeEnvelope(e)).r1 == nil && s.decodeEnvelope(c.encodeEnvelope(e)).r0 == e
+
+// ------------------------------------------------------------------------------------------------
+// Well-formedness predicates (type invariants of the per-request objects)
+
+//@ pred validConf(m) = m != nil && m.serviceOptions != nil && m.maxMsgBufferBytes > 0
+//@ pred validOp(o) = o != nil && o.bufferPool != nil && validConf(o.methodConf) && o.request != nil
+//@ |  && o.client.protocol != nil && o.server.protocol != nil && o.client.codec != nil && o.server.codec != nil
+//@ |  && o.contentLen >= -1
+//@ pred limitOf(o) = o.methodConf.maxMsgBufferBytes
+
+// ------------------------------------------------------------------------------------------------
+// C10 / C09: limits
+
+//@ func (*operation).determineReadLimit
+//@   requires validOp(o)
+//@   ensures[C10] o.contentLen == -1 ==> err == nil && limit == limitOf(o) && !grow
+//@   ensures[C10] o.contentLen > limitOf(o) ==> err != nil && isConnErr(err) && code(err) == 8
+//@   ensures[C10] 0 <= o.contentLen && o.contentLen <= limitOf(o) ==> err == nil && limit == o.contentLen && grow
+//@   ensures[C10] err == nil ==> 0 <= limit && limit <= limitOf(o)
+
+//@ func (*operation).processRequestEnvelope
+//@   requires validOp(o) && o.clientEnveloper != nil
+//@   ensures[C09,C10] err == nil ==> 0 <= msgLen && msgLen <= limitOf(o) && msgLen == be32(envBuf)
+//@   ensures[C09] err != nil ==> isConnErr(err) && (code(err) == 3 || code(err) == 8)
+//@   ensures[C10] err == nil || code(err) != 8 || be32(envBuf) > limitOf(o)
+
+// ------------------------------------------------------------------------------------------------
+// C03 / C09 / C11 / C16: the response state machine
+
+// validRW: structural well-formedness. The delegate is the server's own writer, not another
+// vanguard responseWriter (nested transcoders are outside the verified configuration).
+//@ pred validRW(w) = w != nil && validOp(w.op) && w.delegate != nil && extern(w.delegate) && w.flusher != nil
+//@ |  && (typeIs(w.flusher, flusherNoError) ==> unbox(w.flusher, flusherNoError).f != nil)
+// rwInv: the state machine invariant, established by handle() and preserved by every method.
+//@ pred rwInv(w) = validRW(w)
+//@ |  && (w.endWritten ==> w.headersFlushed && w.err != nil)
+//@ |  && (w.buf != nil ==> !w.headersFlushed)
+//@ |  && (w.headersWritten && !w.endWritten ==> w.respMeta != nil)
+//@ |  && (w.headersFlushed ==> w.respMeta != nil)
+//@ |  && (w.w != nil ==> w.headersWritten)
+
+//@ func (*responseWriter).flushMessage
+//@   requires validRW(w)
+//@   track flushes = (net/http.Flusher).Flush
+//@   ensures[C16] old(w.buf) == nil ==> flushes == 1
+//@   ensures[C16,C03] old(w.buf) != nil ==> flushes == 0
+//@   modifies w.op
+
+//@ func (*responseWriter).writeEnd
+//@   requires validRW(w) && end != nil && !w.endWritten
+//@   track ends = (vanguard.clientProtocolHandler).encodeEnd
+//@   ensures[C03] w.endWritten && ends == 1
+//@   ensures w.headersFlushed == old(w.headersFlushed) && w.err == old(w.err) && w.buf == old(w.buf) && w.respMeta == old(w.respMeta)
+//@   ensures w.headersWritten == old(w.headersWritten) && w.w == old(w.w) && validRW(w)
+
+// encodeEnd of every client protocol: writes only to the given (external) writer, header maps
+// and pooled buffers; never touches the response state machine.
+//@ pred endCall(op, end, writer) = op != nil && op.bufferPool != nil && validConf(op.methodConf) && op.client.codec != nil
+//@ |  && end != nil && writer != nil && extern(writer)
+
+//@ func (grpcClientProtocol).encodeEnd
+//@   requires end != nil
+//@   modifies $map|, $elems|, $buf|, $connerr|
+//@ func (grpcWebClientProtocol).encodeEnd
+//@   requires endCall(op, end, writer)
+//@   modifies $map|, $elems|, $buf|, $connerr|
+//@ func (connectUnaryGetClientProtocol).encodeEnd
+//@   requires endCall(op, end, writer)
+//@   modifies $map|, $elems|, $buf|, $connerr|
+//@ func (connectUnaryPostClientProtocol).encodeEnd
+//@   requires endCall(op, end, writer)
+//@   modifies $map|, $elems|, $buf|, $connerr|
+//@ func (connectStreamClientProtocol).encodeEnd
+//@   requires endCall(op, end, writer)
+//@   modifies $map|, $elems|, $buf|, $connerr|
+//@ func (restClientProtocol).encodeEnd
+//@   requires endCall(op, end, writer)
+//@   modifies $map|, $elems|, $buf|, $connerr|
